@@ -1372,4 +1372,29 @@ theorem totalCount_keepValid : ∀ (items : List Item), totalCount (keepValid it
       have := totalCount_keepValid sub
       by_cases hv : isValidAttr a = true <;> simp [keepValid, hv, totalCount] <;> omega
 
+/-! ### every folder of a well-formed tree -/
+
+/-- the `FavRaw` reached from the root through the entry indices `path` (each must name a folder). -/
+def levelAt : List Nat → Fav → Option Fav
+  | [], f => some f
+  | i :: p, f =>
+    match f.items[i]? with
+    | some (.folder _ _ _ nB nL nF sub) => levelAt p ⟨nB, nL, nF, sub⟩
+    | _ => none
+
+theorem wf_levelAt : ∀ (path : List Nat) (f g : Fav), wfFav f = true → levelAt path f = some g → wfFav g = true
+  | [], f, g, h, hl => by simp [levelAt] at hl; subst hl; exact h
+  | i :: p, f, g, h, hl => by
+      simp only [levelAt] at hl
+      split at hl
+      · rename_i a fid t nB nL nF sub hget
+        obtain ⟨x, y, e, _⟩ := split_at f.items i _ hget
+        simp [wfFav] at h
+        have hw := h.2
+        rw [e] at hw
+        simp [wfItems_append, wfItems] at hw
+        obtain ⟨_, ⟨⟨⟨⟨⟨_, hB⟩, hL⟩, hF⟩, hfit⟩, hws⟩, _⟩ := hw
+        exact wf_levelAt p _ g (by simp [wfFav, hB, hL, hF, hfit, hws]) hl
+      · simp at hl
+
 end PttVerif.C19
